@@ -10,6 +10,10 @@ def arm(profile, faults, flavour="asan", weight=1, **opts):
         d["opts"] = o
     if opts.get("leakcheck"):
         d["leakcheck"] = True
+    if flavour == "asan0":
+        # GMP on malloc under ASan is several times slower; the top rungs of the precision ladder (minutes per solve there) run into
+        # the simulated time limit instead.  The asan arms walk the whole ladder.
+        d.setdefault("opts", {})["knob.ladder.cut"] = "1458"
     return d
 
 COMMON_ASSUME = [
